@@ -1,5 +1,5 @@
 import os, sys
-from vrun import H, VERIF, known_findings
+from vrun import H, VERIF
 sys.path.insert(0, os.path.join(VERIF, "engines", "kani", "appender"))
 import gen_c16  # noqa: E402
 
@@ -18,14 +18,13 @@ def _hs():
     hs.append(H("c16::c16_never", desc="Rotation::NEVER: deadline 0, never rotates, next_date is None",
                 sym="instant within +-2 days of 2024-02-29, nanoseconds"))
     hs.append(H("c16::c16_reach", kind="reach", desc="vacuity twin"))
-    kf = known_findings()
-    if ("C16", "pre1970_deadline") in kf:
-        hs.append(H("c16::c16_pre1970_minutely", kind="finding", role="pre1970_deadline",
-                    desc="minutely appender around 1970-01-01T00:00:00Z including instants before the epoch",
-                    sym="now, prev within +-120 s of the epoch"))
-    if ("C16", "last_day_overflow") in kf:
-        hs.append(H("c16::c16_last_day_daily", kind="finding", role="last_day_overflow",
-                    desc="daily appender on 9999-12-31", sym="instant within the last day"))
+    # recorded-not-repaired roles (KNOWN_FINDINGS.txt): asserted on every run, so a repair shows up as a stale entry
+    hs.append(H("c16::c16_pre1970_minutely", kind="finding", role="pre1970_deadline",
+                desc="minutely appender around 1970-01-01T00:00:00Z including instants before the epoch: rotates iff the "
+                     "deadline is reached", sym="now, prev within +-120 s of the epoch"))
+    hs.append(H("c16::c16_last_day_daily", kind="finding", role="last_day_overflow",
+                desc="daily appender on 9999-12-31: computing the next deadline must not panic",
+                sym="instant within the last day"))
     return hs
 
 
